@@ -311,6 +311,8 @@ func (e *c09env) runFaulted(s session, plan netfx.Plan, kase *c09case) (f failur
 	}
 	defer px.Close()
 	px.SetPlan(plan)
+	px.Hold()
+	defer px.Release()
 	cl, closeClient := e.newClient(s, px.Addr())
 	o := &observer{start: time.Now()}
 	done := make(chan struct{})
@@ -324,12 +326,14 @@ func (e *c09env) runFaulted(s session, plan netfx.Plan, kase *c09case) (f failur
 		} else {
 			mc = cl.(mpx.Client)
 		}
-		if conn, st := mc.Conn(async.TimeoutContext(faultBound)); st.OK() && px.Accepted.Load() == 1 {
-			// only the first accepted connection carries the fault plan: if the client has
-			// already reconnected, this object is a healthy replacement and must not be
-			// expected to close
+		// The proxy holds the stream (no byte forwarded, so no fault and no reconnect yet) until
+		// the connection object is recorded: Conn() returns as soon as the dial succeeds, and a
+		// counter of accepted connections read afterwards can lag behind a reconnect under load,
+		// in which case a healthy replacement would wrongly be expected to close.
+		if conn, st := mc.Conn(async.TimeoutContext(faultBound)); st.OK() {
 			o.conns = append(o.conns, conn)
 		}
+		px.Release()
 		s.run(e, cl, o)
 	}()
 	select {
@@ -564,6 +568,7 @@ func TestC09_FaultSequences(t *testing.T) {
 	defer e.close()
 	ev.Rule(c09, "fault-then-recover sequences: 1..4 consecutive faulted runs with drawn session, direction, offset and kind on fresh proxies against the same long-lived servers (pooled objects are reused across faults), same oracle after each")
 	ev.CheckScaled(t, c09, 1, 4, func(rt *rapid.T) {
+		defer drawSched(rt).install()() // seeded yields at the library's schedule points
 		k := rapid.IntRange(1, 4).Draw(rt, "faults")
 		for i := 0; i < k; i++ {
 			s := c09sessions[rapid.IntRange(0, len(c09sessions)-1).Draw(rt, "session")]
